@@ -392,6 +392,19 @@ def solve (P : Params C D) (cfg : Cfg) (dr : Draws D) (tp : TransProbs) (init : 
 
 end Loop
 
+/-! ## The hypothesis of the class-level theorems, as a computable check -/
+
+/-- on the scores in `l`: `isclose` is reflexive, symmetric, transitive, and its classes are ordered consistently with
+    `<` (evaluated by the driver on the scores of every replayed run; `Proofs/Evo.lean` shows it implies `Coherent`) -/
+def coherentOn (t : Tol) (l : List Score) : Bool :=
+  l.all fun a =>
+    a.isclose t a &&
+    l.all fun b =>
+      (!(a.isclose t b) || b.isclose t a) &&
+      l.all fun c =>
+        (!(a.isclose t b && b.isclose t c) || a.isclose t c) &&
+        (!(a.isclose t b && b.lt c && !b.isclose t c) || a.lt c)
+
 /-! ## Candidate positions of two-qubit insertions (`_select_possible_cnot_position`, `…_measurement_position`)
 
   A circuit DAG is given by its edge list; an edge is `(u, v, key)` with node ids as numbers (the harness numbers the
